@@ -1,4 +1,6 @@
 import TaskModel.Vars.Lemmas
+import TaskModel.Vars.CompileLemmas
+import TaskModel.Quote.Template
 /-!
 # C02 (loops and call variables) — completes `Props/C02.lean`
 
@@ -51,25 +53,33 @@ theorem productSpec_length (rows : List (Name × List Str)) :
     | cons it its ih2 => simp [List.flatMap_cons, ih2, Nat.succ_mul, Nat.add_comm]
 
 /-- **Call variables.** A variable passed in the call and not redefined by the callee's own
-`vars:` is what the callee sees, whatever the lower-priority sites define. -/
-theorem C02_call_vars (w : World) (cx : Ctx) (base : Env) (c : Cache)
+`vars:` is what the callee sees, whatever the lower-priority sites define: the call's definition
+evaluated (in the root directory) over exactly what the four layers below the call layer and the
+call's earlier definitions resolved — no existential state (the task compiled alone). -/
+theorem C02_call_vars (w : World) (cx : Ctx) (base : Env)
     (defs : Site → List (Name × VarDef)) (pre post : List (Name × VarDef)) (m : Name) (d : VarDef)
     (hcall : defs .callVars = pre ++ (m, d) :: post) (hpost : m ∉ names post)
     (htask : m ∉ names (defs .taskVars)) :
-    ∃ s : St, get (getVariables w cx base (layersOf defs) c).env m =
-      (evalDef w cx.rootDir (evalBlock w cx.rootDir pre s.env s.cache).1
-        (evalBlock w cx.rootDir pre s.env s.cache).2 d).1 := by
-  let pre4 : List Layer := [⟨.taskfileEnv, defs .taskfileEnv⟩, ⟨.taskfileVars, defs .taskfileVars⟩,
-      ⟨.includeVars, defs .includeVars⟩, ⟨.includedTaskfileVars, defs .includedTaskfileVars⟩]
-  have hl : layersOf defs = pre4 ++ [⟨.callVars, defs .callVars⟩, ⟨.taskVars, defs .taskVars⟩] := rfl
+    get (getVariables w cx base (layersOf defs) []).env m =
+      (evalDef w cx.rootDir
+        (evalBlock w (fun _ => cx.rootDir) pre (stateBefore w cx base defs .callVars).env (stateBefore w cx base defs .callVars).cache).1
+        (evalBlock w (fun _ => cx.rootDir) pre (stateBefore w cx base defs .callVars).env (stateBefore w cx base defs .callVars).cache).2 d).1 := by
+  have hl := layersOf_split defs .callVars
   simp only [getVariables]
   rw [hl, runLayers_append]
-  refine ⟨runLayers w cx pre4 0 { td := none, env := base, cache := c }, ?_⟩
-  generalize runLayers w cx pre4 0 { td := none, env := base, cache := c } = s
-  simp only [runLayers]
-  rw [stepLayer_frame _ _ _ _ _ _ htask]
-  simp only [stepLayer, Site.inTaskDir, hcall, Bool.false_eq_true, if_false]
-  exact evalBlock_last w cx.rootDir pre post m d s.env s.cache hpost
+  simp only [runLayers, sitesAfter, List.map_cons, List.map_nil, lay]
+  rw [stepLayer_frame _ _ _ _ _ htask]
+  simp only [stepLayer, hcall, siteDirf_root cx .callVars rfl, stateBefore]
+  exact evalBlock_last w _ pre post m d _ _ hpost
+
+/-- a literal passed in the call is what the callee sees -/
+theorem C02_call_vars_literal (w : World) (cx : Ctx) (base : Env)
+    (defs : Site → List (Name × VarDef)) (pre post : List (Name × VarDef)) (m : Name) (v : Str)
+    (hcall : defs .callVars = pre ++ (m, .lit [.text v]) :: post) (hpost : m ∉ names post)
+    (htask : m ∉ names (defs .taskVars)) :
+    get (getVariables w cx base (layersOf defs) []).env m = v := by
+  rw [C02_call_vars w cx base defs pre post m _ hcall hpost htask]
+  simp [evalDef, render]
 
 example : product [(0, [[1], [2]]), (1, [[7], [8]])] =
     [[(0, [1]), (1, [7])], [(0, [1]), (1, [8])], [(0, [2]), (1, [7])], [(0, [2]), (1, [8])]] := by decide
@@ -96,5 +106,39 @@ theorem C02_loop_one_per_element (lv : Name) (vars : List (Name × Str)) (items 
 /-- non-vacuity: a task variable named like the loop variable does not hide the elements -/
 example : loopRender 7 [(7, [115]), (8, [120])] [[97], [98]] [7, 8] =
     [[some [97], some [120]], [some [98], some [120]]] := by decide
+
+/-! ## "Variables passed in a call are the ones the callee sees" — the VALUE, byte for byte
+
+The theorems above are about the layers (which definition wins).  The value itself takes one
+more pass through the template engine: the callee's `getVariables` templates every call
+variable like any other definition.  A value that came out of an `sh:` command in the caller
+(the one place where text is not templated), or that is handed to `Call.Vars` through the API,
+is EVALUATED when it contains a template action, and loses the literal `<no value>` — the
+root of the two open C19 findings, recorded for C02 as `C02-call-values-templated-again`
+(domain `callvals`).  `Quote.Template`: the engine's behaviour on non-inert text is a parameter. -/
+
+open TaskModel.Quote in
+/-- what the callee holds for a call variable whose value is the text `v` -/
+def calleeSees (engine : Bytes → Option Bytes) (v : Bytes) : Option Bytes := tmplPass engine v
+
+open TaskModel.Quote in
+def C02_call_values_verbatim_full : Prop := ∀ (engine : Bytes → Option Bytes) (v : Bytes), calleeSees engine v = some v
+
+open TaskModel.Quote in
+/-- **false of the code as it is**: the value `{{.Y}}` with an engine that renders the action as `why` -/
+theorem C02_call_values_counterexample : ¬ C02_call_values_verbatim_full := by
+  intro h
+  have := h (fun _ => some [119, 104, 121]) [123, 123, 46, 89, 125, 125]
+  revert this
+  decide
+
+open TaskModel.Quote in
+/-- **partial**: a value without `{{` and without the literal `<no value>` is what the callee sees -/
+theorem C02_call_values_partial (engine : Bytes → Option Bytes) (v : Bytes) (h : templateInert v = true) :
+    calleeSees engine v = some v := by
+  simp [calleeSees, tmplPass, h]
+
+open TaskModel.Quote in
+example : templateInert [105, 116, 39, 115, 32, 34, 36, 72, 79, 77, 69, 34] = true := by decide    -- it's "$HOME"
 
 end Props.C02Vars
